@@ -75,5 +75,31 @@ pub assume_specification<P: AsRef<Path>> [std::path::Path::join] (s: &Path, p: P
     ensures pid(&r) == pjoin(pid(s), nid(p));
 pub assume_specification [ <PathBuf as std::ops::Deref>::deref ] (p: &PathBuf) -> (r: &Path)
     ensures pid(r) == pid(p);
+// ---- OpenOptions: a record of flags; `open` yields a handle whose view is determined by the flags and the disk ----
+#[verifier::external_type_specification] #[verifier::external_body] pub struct ExOpenOptions(std::fs::OpenOptions);
+pub struct OOFlags { pub create: bool, pub read: bool, pub write: bool, pub truncate: bool, pub append: bool }
+pub uninterp spec fn oo(o: &std::fs::OpenOptions) -> OOFlags;
+pub assume_specification [std::fs::OpenOptions::new] () -> (r: std::fs::OpenOptions)
+    ensures oo(&r) == (OOFlags { create: false, read: false, write: false, truncate: false, append: false });
+pub assume_specification [std::fs::OpenOptions::create] (o: &mut std::fs::OpenOptions, b: bool) -> (r: &mut std::fs::OpenOptions)
+    ensures oo(r) == (OOFlags { create: b, ..oo(old(o)) }), *final(o) == *final(r);
+pub assume_specification [std::fs::OpenOptions::read] (o: &mut std::fs::OpenOptions, b: bool) -> (r: &mut std::fs::OpenOptions)
+    ensures oo(r) == (OOFlags { read: b, ..oo(old(o)) }), *final(o) == *final(r);
+pub assume_specification [std::fs::OpenOptions::write] (o: &mut std::fs::OpenOptions, b: bool) -> (r: &mut std::fs::OpenOptions)
+    ensures oo(r) == (OOFlags { write: b, ..oo(old(o)) }), *final(o) == *final(r);
+pub assume_specification [std::fs::OpenOptions::truncate] (o: &mut std::fs::OpenOptions, b: bool) -> (r: &mut std::fs::OpenOptions)
+    ensures oo(r) == (OOFlags { truncate: b, ..oo(old(o)) }), *final(o) == *final(r);
+pub assume_specification [std::fs::OpenOptions::append] (o: &mut std::fs::OpenOptions, b: bool) -> (r: &mut std::fs::OpenOptions)
+    ensures oo(r) == (OOFlags { append: b, ..oo(old(o)) }), *final(o) == *final(r);
+// opening never fails spuriously (the file exists or `create` is set -- assumption); a handle opened for plain
+// read+write (no append) starts at offset 0 on the file's disk content, emptied first iff write+truncate were requested
+pub assume_specification<P: AsRef<Path>> [std::fs::OpenOptions::open] (o: &std::fs::OpenOptions, path: P) -> (r: Result<File, IoError>)
+    ensures r is Ok,
+        fview(&r->Ok_0).id == pid(&path),
+        fview(&r->Ok_0).data == (if oo(o).write && oo(o).truncate && !oo(o).append { Seq::<u8>::empty() } else { disk(pid(&path)) }),
+        !oo(o).append ==> fview(&r->Ok_0).pos == 0;
+// a duplicated handle shows the same file (and shares the cursor with the original -- contracts never rely on cursors)
+pub assume_specification [File::try_clone] (f: &File) -> (r: Result<File, IoError>)
+    ensures r is Ok, fview(&r->Ok_0).id == fview(f).id, fview(&r->Ok_0).data == fview(f).data;
 // error values are opaque; constructing one has no effect the contracts speak about (transformation 12 target)
 #[verifier::external_body] pub fn io_other(s: String) -> IoError { unimplemented!() }
